@@ -453,10 +453,14 @@ func (i *IfUnless) Evaluation(
 	t *base.T,
 ) (err error) {
 
-	// clear
-	i.originalTs = make(map[string][]base.T)
-	i.narrowTs = make(map[string][]base.T)
-	i.ifNarrowTs = make(map[string][]base.T)
+	// narrowing state belongs to this conditional only: the registered
+	// evaluator is shared, so a nested if/unless must not reset its parent's
+	i = &IfUnless{
+		conditionType: i.conditionType,
+		originalTs:    make(map[string][]base.T),
+		narrowTs:      make(map[string][]base.T),
+		ifNarrowTs:    make(map[string][]base.T),
+	}
 
 	isParsingExpr := p.IsParsingExpression()
 
